@@ -406,7 +406,7 @@ def run(case):
                 elif k in ("sdata", "seof", "serr"):
                     lab = step[1] if isinstance(step[1], str) else cur(step[1])
                     r = env.readers.get(lab)
-                    if r: r.feed(step[2].encode() if k == "sdata" else k[1:])
+                    if r: r.feed(step[2].encode() if (k == "sdata" and step[2]) else ("eof" if k == "sdata" else k[1:]))
                 elif k == "drainfail":
                     lab = step[1] if isinstance(step[1], str) else cur(step[1])
                     w = env.writers.get(lab)
